@@ -69,6 +69,33 @@ class LT:
     multiplier: int = 0
     base: LTbase = LTbase.FIFTY_MILLISECONDS
 
+    @classmethod
+    def largest_not_exceeding_millis(cls, value: int) -> "LT":
+        """
+        Quantise a maximum lifetime: the largest representable lifetime (multiplier 0..63 times a
+        base of 50 ms, 1 s, 10 s or 100 s) that does not exceed ``value`` milliseconds. When
+        several encodings represent that lifetime the largest base is used.
+
+        Parameters
+        ----------
+        value : int
+            Maximum lifetime in milliseconds.
+        """
+        base_millis = (
+            (LTbase.FIFTY_MILLISECONDS, 50),
+            (LTbase.ONE_SECOND, 1000),
+            (LTbase.TEN_SECONDS, 10000),
+            (LTbase.ONE_HUNDRED_SECONDS, 100000),
+        )
+        best = cls(multiplier=0, base=LTbase.FIFTY_MILLISECONDS)
+        best_millis = 0
+        for base, millis in base_millis:
+            multiplier = min(63, max(0, int(value)) // millis)
+            if multiplier > 0 and multiplier * millis >= best_millis:
+                best = cls(multiplier=multiplier, base=base)
+                best_millis = multiplier * millis
+        return best
+
     def set_value_in_millis(self, value: int) -> "LT":
         """
         Set the lifetime in milliseconds.
@@ -197,7 +224,7 @@ class BasicHeader:
 
     @classmethod
     def initialize_with_mib_and_rhl(cls, mib: MIB, rhl: int) -> "BasicHeader":
-        lt = LT().set_value_in_seconds(mib.itsGnDefaultPacketLifetime)
+        lt = LT.largest_not_exceeding_millis(mib.itsGnDefaultPacketLifetime * 1000)
         return cls(
             version=1,
             nh=BasicNH.COMMON_HEADER,
@@ -228,9 +255,9 @@ class BasicHeader:
             Remaining hop limit.
         """
         if max_packet_lifetime is not None:
-            lt = LT().set_value_in_millis(int(max_packet_lifetime * 1000))
+            lt = LT.largest_not_exceeding_millis(int(max_packet_lifetime * 1000))
         else:
-            lt = LT().set_value_in_seconds(mib.itsGnDefaultPacketLifetime)
+            lt = LT.largest_not_exceeding_millis(mib.itsGnDefaultPacketLifetime * 1000)
         return cls(
             version=1,
             nh=BasicNH.COMMON_HEADER,
@@ -380,7 +407,7 @@ class BasicHeader:
             MIB.
         """
         # Return a new BasicHeader initialized using values from the MIB
-        lt = LT().set_value_in_seconds(mib.itsGnDefaultPacketLifetime)
+        lt = LT.largest_not_exceeding_millis(mib.itsGnDefaultPacketLifetime * 1000)
         return cls(
             version=mib.itsGnProtocolVersion,
             nh=BasicNH.COMMON_HEADER,
